@@ -416,6 +416,39 @@ def modifyEomCommit (s : SeqState) (n : ChName) (c : ChanState) (e : EomIn) (det
         else done s2
       store (.modifyEom n { e with optimal := detOff }) r
 
+/-- `declare_channel(..., initial_target=...)`: when the initial target is refused nothing stays
+declared (repair of F2.9–F2.13: the refused call used to leave the channel, and the mode it
+implies, behind). -/
+def Raw.orRollback (r : Raw) (s : SeqState) : Raw :=
+  match r.err with
+  | none => r
+  | some e => fail s e
+
+theorem Raw.orRollback_cases (r : Raw) (s : SeqState) :
+    r.orRollback s = r ∨ ∃ e, r.orRollback s = fail s e := by
+  unfold Raw.orRollback
+  cases r.err with
+  | none => exact .inl rfl
+  | some e => exact .inr ⟨e, rfl⟩
+
+theorem Raw.orRollback_err (r : Raw) (s : SeqState) : (r.orRollback s).err = r.err := by
+  unfold Raw.orRollback
+  cases h : r.err with
+  | none => exact h
+  | some e => rfl
+
+theorem Raw.orRollback_ok {r : Raw} {s : SeqState} (h : (r.orRollback s).err = none) :
+    r.orRollback s = r := by
+  rw [Raw.orRollback_err] at h
+  unfold Raw.orRollback
+  rw [h]
+
+theorem Raw.orRollback_st_of_err {r : Raw} {s : SeqState} {e : Err} (h : (r.orRollback s).err = some e) :
+    (r.orRollback s).st = s := by
+  rw [Raw.orRollback_err] at h
+  unfold Raw.orRollback
+  rw [h]; rfl
+
 /-- One API call, in Python statement order. -/
 def stepRaw (s : SeqState) (op : Op) : Raw :=
   match op with
@@ -437,7 +470,7 @@ def stepRaw (s : SeqState) (op : Op) : Raw :=
     let r : Raw :=
       if !cfg.isLocal then done s3
       else match init with
-        | some qs => targetCore s3 qs name
+        | some qs => (targetCore s3 qs name).orRollback s
         | none => done s3
     store op r
   | .configDetMap dmmId maxW sumW =>
